@@ -108,7 +108,9 @@ def apply(model, ref, op, res, seq, tm, tv):
     if op[0] == "add":
         form = INDEX_FORMS[op[1]]
         Y = y_for(form, op[2])
-        model.add_sample(form, Y)
+        Yin = Y.copy()
+        model.add_sample(form, Yin)
+        Yin[...] = 777.0  # the caller re-uses its buffer: the model must have kept its own copy
         ref.add(form, Y)
     elif op[0] in ("add_bad_index", "add_len_mismatch"):
         before = [d.copy() for d in model.design_samples]
